@@ -316,10 +316,13 @@ func annotate(T *Tables, ev M) {
 			}
 		}
 		// another spelling of clean paths (./f, d/./g, d//g, d/../f): what the arguments name after lexical cleaning
-		if !dom && len(ps) > 0 && (ev["ev"] == "restore") {
+		if !dom && len(ps) > 0 && (ev["ev"] == "restore" || ev["ev"] == "rm") {
 			var cps []any
 			for _, p := range ps {
 				a := string(Unesc(p.(string)))
+				if ev["ev"] == "rm" && len(a) > 1 && strings.HasSuffix(a, "/") && !strings.HasSuffix(a, "//") {
+					a = strings.TrimSuffix(a, "/") // `docs/` names the directory docs
+				}
 				if a == "" || strings.HasPrefix(a, "-") || strings.HasPrefix(a, "/") || strings.HasSuffix(a, "/") || strings.Contains(a, "@ROOT@") || strings.Contains(a, "\\") || strings.Contains(a, "..") {
 					cps = nil
 					break
